@@ -95,6 +95,7 @@ def _report(ctx, rule, keyed, exceptions, violation_text):
     """keyed: [(key, site)] -> ok / exception / violation; exact (or prefix-pattern) exceptions first, then exceptions whose site moved within the crate"""
     used = set()
     pending = []
+    unresolved = []
     for key, s in keyed:
         loc = s["fn"].loc(s["line"])
         if s["guard"]:
@@ -110,6 +111,31 @@ def _report(ctx, rule, keyed, exceptions, violation_text):
         if ek is not None:
             used.add(ek)
             ctx.exception(rule, key, exceptions[ek] + " [same construct on the same expression as `%s`, whose site is gone: the code was moved]" % ek.split("|")[1][-60:], loc)
+        else:
+            unresolved.append((key, s, loc))
+    # sites that are neither guarded nor excepted.  When reasoned exceptions of the same kind in the same crate have lost their site in this very tree, the code
+    # they were written for has been moved or re-spelled and nothing here can tell a moved site from a new one: such a site is *undecided* (exit 2, re-triage),
+    # not a violation.  A site without such a counterpart is a violation as before.
+    def kind_of(k):
+        sk = _split_key(k)
+        if sk is None:
+            return None
+        return (sk[1], "divisor" if sk[2].startswith("divisor=") else sk[2].split("|")[0])
+    # candidates: exceptions of this rule that are unused although their function is covered by this very report (it has other sites here), or whose
+    # function no longer exists at all; exceptions for functions outside this report's scope (another property's part of a shared table) are not stale
+    covered = {key.split("|")[1] for key, _ in keyed if key.count("|") >= 2}
+    existing = {f.path for f in ctx.prog.fns.values()} | {ctx.prog.display(f) for f in ctx.prog.fns.values()}
+    stale = [k for k in exceptions if k.startswith(rule + "|") and k not in used and not k.endswith("*") and k.count("|") >= 2
+             and (k.split("|")[1] in covered or k.split("|")[1] not in existing)]
+    for key, s, loc in unresolved:
+        partner = next((k for k in stale if kind_of(k) == kind_of(key)), None)
+        if partner is not None:
+            stale.remove(partner)
+            if not hasattr(ctx, "undecided"):
+                ctx.undecided = []
+            ctx.undecided.append("%s at %s is not excepted, while the exception written for `%s` has lost its site: moved or re-spelled code, triage again"
+                                 % (key[:160], loc, partner.split("|", 1)[1][:120]))
+            ctx.note("undecided (moved code?): %s" % key)
         else:
             ctx.violation(rule, key, violation_text(s), loc)
     return used
